@@ -33,6 +33,51 @@ pub fn generate(tier: &str, rng: &mut Rng) -> Vec<String> {
             out.push(DecCase { dir: gen_dir(rng), enc, max: None, buf_size: 16, evs, stream: b.to_vec(), extra_polls: 4 }.line());
         }
     }
+    if thorough {
+        // small-scope exhaustive: hostile byte strings × every 1- and 2-cut chunking × one special
+        // event (Pending, trailers, body error) inserted at every position
+        let strings: Vec<Vec<u8>> = vec![
+            vec![0, 0, 0, 0, 1, 9, 0, 0, 0, 0, 0],
+            vec![7, 0, 0, 0, 0, 1, 9],
+            vec![0, 0, 0, 0, 2, 9],
+            vec![1, 0, 0, 0, 0, 0, 0, 0, 0, 1, 5],
+            vec![0, 0, 0, 0, 1, 0xFF, 0, 0, 0, 0, 1, 4],
+            vec![0, 0, 0, 0, 9, 1, 2],
+            vec![0, 0, 0],
+            vec![0, 0xFF, 0xFF, 0xFF, 0xFF],
+        ];
+        let specials = ["p", "t0", "tnone", "t5", "e1", "e13"];
+        for b in &strings {
+            let n = b.len();
+            let mut cutsets: Vec<Vec<usize>> = vec![vec![]];
+            for i in 1..n {
+                cutsets.push(vec![i]);
+                for j in i + 1..n {
+                    cutsets.push(vec![i, j]);
+                }
+            }
+            for cuts in cutsets {
+                let mut chunks = Vec::new();
+                let mut prev = 0;
+                for c in &cuts {
+                    chunks.push(b[prev..*c].to_vec());
+                    prev = *c;
+                }
+                chunks.push(b[prev..].to_vec());
+                let base: Vec<String> = chunks.iter().map(|c| format!("d{}", &hex(c)[1..])).collect();
+                for dir in ["req", "resp200", "resp503"] {
+                    out.push(DecCase { dir: dir.into(), enc: None, max: Some(8), buf_size: 16, evs: base.clone(), stream: b.clone(), extra_polls: 3 }.line());
+                    for sp in specials {
+                        for pos in 0..=base.len() {
+                            let mut evs = base.clone();
+                            evs.insert(pos, sp.to_string());
+                            out.push(DecCase { dir: dir.into(), enc: None, max: Some(8), buf_size: 16, evs, stream: b.clone(), extra_polls: 3 }.line());
+                        }
+                    }
+                }
+            }
+        }
+    }
     out
 }
 
